@@ -29,12 +29,15 @@ Print Assumptions C01_eval_expr_fuel_monotone.
    integers of every width with all operators and casts, bool, void, immutable and
    mutable locals, assignment to places x / p.f / p[i], if/else, while / loop with
    labelled break / continue, (labelled) blocks with values, calls incl. recursion,
-   return, arrays with bounds-checked indexing, structs, printing; NOT covered: generic
-   functions / comptime parameters, which [well_typed] rejects, and the parts of the C01
-   fragment that CapyCore does not have yet: char, slices, enums/switch, optionals,
-   error unions, pointers, lambdas, varargs, defer).  A well-typed program never gets
-   stuck: whatever the fuel, the outcome is Done, the defined Fault (index out of
-   bounds: message + exit 1), a machine Trap (division by zero, MIN / -1) or OutOfFuel. *)
+   return, arrays with bounds-checked indexing, structs, printing, [defer] (run exactly
+   once, LIFO, when the rest of its block is left normally or by break / continue /
+   return), enums with payloads and variant injection, optionals, error unions, [switch]
+   with argument and default arm, #is_variant, #unwrap (abort fault), .try;
+   NOT covered: generic functions / comptime parameters, which [well_typed] rejects, and
+   the parts of the C01 fragment that CapyCore does not have: char, slices, pointers,
+   lambdas, varargs, floats).  A well-typed program never gets stuck: whatever the fuel,
+   the outcome is Done, a defined Fault (index out of bounds, #unwrap of another variant:
+   message + exit 1), a machine Trap (division by zero, MIN / -1) or OutOfFuel. *)
 Theorem C01_type_safety_partial : forall p,
   well_typed p = true -> forall fuel, eval_prog fuel p <> Stuck.
 Proof. exact type_safety_partial. Qed.
@@ -76,3 +79,28 @@ Example C01_example_done :
   eval_prog 50 (ex_prog (EInt (TInt i32) 300)) = Done [EvInt u8 250; EvInt u8 253; EvInt u8 6] 44 /\
   eval_prog 3 (ex_prog (EInt (TInt i32) 300)) = OutOfFuel.
 Proof. repeat split; vm_compute; reflexivity. Qed.
+
+(* Non-vacuity for defer / sum types: f :: (o: ?i32) -> ?i32 { defer print(1); x := o.try; defer print(2); x + 1 }
+   main prints switch over f(5) and f(nil), then #unwraps nil: defers run LIFO and also on the .try return. *)
+Definition ex_oi : ty := TOpt (TInt i32).
+Definition ex_f : fundef :=
+  mkFun 0 [] [(0%nat, ex_oi)] ex_oi
+    (EBlock None ex_oi
+       [EDefer (EPrint (EInt (TInt i32) 1));
+        ELet 1 (TInt i32) false (ETry (EVar 0));
+        EDefer (EPrint (EInt (TInt i32) 2))]
+       (EInject ex_oi 1 (EBin OAdd (EVar 1) (EInt (TInt i32) 1)))).
+Definition ex_show (e : expr) : expr :=
+  EPrint (ESwitch (TInt i32) e 5 [EInt (TInt i32) (-1); EVar 5] None).
+Definition ex_prog2 : prog :=
+  mkProg [ex_f;
+          mkFun 0 [] [] TVoid
+            (EBlock None TVoid
+               [ex_show (ECall 0 [] [] [EInject ex_oi 1 (EInt (TInt i32) 5)]);
+                ex_show (ECall 0 [] [] [EInject ex_oi 0 EUnit]);
+                EPrint (EUnwrap (EInject ex_oi 0 EUnit) 1)] EUnit)] 1.
+Example C01_example_defer_sum :
+  well_typed ex_prog2 = true /\
+  eval_prog 50 ex_prog2 =
+    Fault [EvInt i32 2; EvInt i32 1; EvInt i32 6; EvInt i32 1; EvInt i32 (-1)] FAULT_UNWRAP 1.
+Proof. split; vm_compute; reflexivity. Qed.
